@@ -8,7 +8,7 @@ require (
 	go.uber.org/zap/exp v0.0.0
 )
 
-require go.uber.org/multierr v1.10.0 // indirect
+require go.uber.org/multierr v1.10.0
 
 replace go.uber.org/zap => /repo
 
